@@ -8,23 +8,49 @@ destroyed, or the owner disconnects. The reply carries the owner's result and pa
 the owner answered first, otherwise the synthesized outcome (invalid-service or aborted); replies from
 non-owners, duplicate replies and replies after an abort are never delivered.
 
-What is proved here (model M4, handlers `call_function_impl`, `call_function_reply`, `abort_call`): the
-decision logic of each step of a call's life, for every broker state:
-* a call to a cookie that names no live service is answered `InvalidService` at once (`no_service`);
-* the owner's reply to a pending call is forwarded once, to the caller, with the caller's serial and
-  the owner's result, and the pending entry is gone afterwards (`owner_reply_forwarded`) — so a second
-  reply finds nothing and is ignored (`unknown_reply_ignored`);
-* a reply from a connection that does not own the called object is ignored (`foreign_reply_ignored`);
-* an abort marks the call and answers the caller `Aborted` once (`abort_answers_once`); the owner's
-  later reply is dropped while still clearing the entry (`reply_after_abort_dropped`).
-Partial: the statement over whole histories ("exactly one" across destroy/disconnect interleavings)
-needs the consistency of `function_calls` with the per-connection and per-service call sets as a global
-invariant; that part is tied by the correspondence runs (all interleavings the harness generates, with
-serial reuse) and not by a theorem.
+What is proved here (model M4).
+
+*Every history* (`Broker.run`, any interleaving of requests of any connections, connects, disconnects in the four
+ways, shutdown), from any state:
+* `call_replies_balance`: for a connection `c` that is there at the end with its task running and a caller serial
+  `n`: replies with serial `n` put into `c`'s queue + (1 if a call `(c, n)` is pending at the end) = (1 if one was
+  pending at the start) + the calls `(c, n)` the broker took. No invariant is assumed: the law holds from any state.
+* `replies_never_exceed_calls`: so never more replies than calls — a reply from a non-owner, a second reply, a reply
+  after an abort, an abort of an unknown call, the destruction of services and objects, disconnects of anyone never
+  add a reply `c` did not ask for.
+* `well_behaved_caller_exactly_once`: if `c` sends a call with serial `n` only while no earlier one with that serial
+  is pending (and `CallFunction2` only with a version that has it), replies + pending = calls: each call is answered
+  exactly once, except that the last may still be pending. Reuse of a serial after a reply or an abort is covered.
+* `fresh_connection_balance`: a connection starts with no pending call.
+
+*Every reachable state* (`Reachable`: states of `Broker::run` between two events, fewer than 2³² calls pending at a
+time — with 2³² the implementation's `SerialMap::insert` does not return), by the invariant `XrefP`
+(`Lemmas/Broker/XP.lean`, `Xref.lean`, `Xref2.lean`) between the per-connection call tables, `function_calls` and
+the two deferred lists:
+* `pending_entry_is_live_call`, `live_call_is_pending_at_its_caller`: an entry `n ↦ bs` of connection `c` is the
+  pending, not aborted call `bs` of `(c, n)`, and every call that is not aborted is in the table of its caller, which
+  is still connected;
+* `owner_reply_delivered`: when the owner of the called object answers `bs` with result `r`, the turn of the broker
+  puts exactly one message into a queue: `CallFunctionReply(n, r)` for `c` — the caller's serial, the owner's result
+  and payload — and the call is gone from both tables;
+* `foreign_reply_not_delivered`: a reply from any other connection puts nothing into any queue and the call stays.
+
+*Every state, one handler* (as before): `no_service`, `owner_reply_forwarded`, `unknown_reply_ignored`,
+`foreign_reply_ignored`, `abort_answers_once`, `reply_after_abort_is_dropped`, `abort_twice_silent`.
+
+Partial: that a pending call *is* answered when its service or object is destroyed or its owner disconnects
+(the callee's side of the invariant: `Service::function_calls` against `function_calls`), that an abort is answered in
+the same turn, and the absence of panics, are not theorems; they are tied by the correspondence runs (all
+interleavings the harness generates, with serial reuse, also right after an abort).
 -/
 import Aldrin.Lemmas.Broker.Events
+import Aldrin.Lemmas.Broker.Xref2
 
+set_option linter.unusedSimpArgs false
+set_option linter.unusedVariables false
 namespace Aldrin.Broker
+open Generated
+
 
 theorem no_service {s : St} {id serial svc f v p} {c : Conn}
     (hc : AL.find? id s.b.conns = some c) (hs : AL.find? svc s.b.svcUuids = none) :
@@ -76,5 +102,258 @@ example : (match run {} {} [.newConn 0 14, .newConn 1 20, .msg 0 (.createObject 
       .msg 1 (.callFunction 9 1 0 [3, 7]), .msg 1 (.abortFunctionCall 9), .msg 0 (.callFunctionReply 0 (.ok [3, 8]))] with
     | .ok (b, _, outs) => (b.calls.elems.length, outs.drop 4) | .error _ => (99, [])) =
     (0, [[⟨0, .callFunction 0 1 0 [3, 7], some 20⟩], [⟨1, .callFunctionReply 9 .aborted, none⟩], []]) := by decide
+
+
+/-! ### every history: the balance of calls and replies -/
+
+
+/-- the connection is known to the broker and its task still takes messages -/
+def Live (b : Broker) (c : ConnId) : Prop := ∃ conn, AL.find? c b.conns = some conn ∧ conn.alive = true
+
+/-- 1 if the broker holds a pending call of connection `c` under the caller's serial `n`, else 0 -/
+def pendingCall (b : Broker) (c n : Nat) : Nat :=
+  match AL.find? c b.conns with
+  | some conn => if (AL.find? n conn.calls).isSome then 1 else 0
+  | none => 0
+
+/-- how many `CallFunctionReply` messages with serial `n` were put into the queue of connection `c` -/
+def callReplies (c n : Nat) (outs : List (List Out)) : Nat := reps c n outs.flatten
+
+theorem live_iff_ck {b : Broker} {w : Work} {c : ConnId} : Live b c ↔ ∃ t, ck ⟨b, w, []⟩ c = some (t, true) := by
+  unfold Live ck
+  constructor
+  · rintro ⟨conn, h1, h2⟩; exact ⟨conn.calls, by simp [h1, h2]⟩
+  · rintro ⟨t, h⟩
+    split at h
+    · rename_i conn hc; exact ⟨conn, hc, by simp at h; exact h.2⟩
+    · simp at h
+
+theorem pendingCall_of_ck {b : Broker} {w : Work} {c n : Nat} {t : CallTbl} {a : Bool} (h : ck ⟨b, w, []⟩ c = some (t, a)) :
+    pendingCall b c n = pendC t n := by
+  unfold ck at h; unfold pendingCall pendC
+  split at h
+  · rename_i conn hc; simp at h; simp [hc, h.1]
+  · simp at h
+
+theorem pendingCall_le_one (b : Broker) (c n : Nat) : pendingCall b c n ≤ 1 := by
+  unfold pendingCall; split
+  · split <;> omega
+  · omega
+
+/-- **Balance of calls and replies, every history.** Start in any state of the broker and run any history in which
+connection `c` does not arrive anew. If `c` is there at the end with its task running, it was so all along, and the
+replies with serial `n` put into its queue, plus the call `(c, n)` still pending at the end, are exactly the call that
+was pending at the start plus the calls `(c, n)` the broker took. -/
+theorem call_replies_balance (es : List Event) (b : Broker) (w : Work) (b' : Broker) (w' : Work) (outs : List (List Out))
+    (hr : run b w es = .ok (b', w', outs)) (c n : Nat) (hn : ∀ v, Event.newConn c v ∉ es) (hl : Live b' c) :
+    Live b c ∧ callReplies c n outs + pendingCall b' c n = pendingCall b c n + taken c n b w es := by
+  obtain ⟨t', ht⟩ := (live_iff_ck (w := w')).1 hl
+  obtain ⟨t, e, q⟩ := run_bal (n := n) es b w b' w' outs hr hn t' ht
+  exact ⟨(live_iff_ck (w := w)).2 ⟨t, e⟩, by rw [pendingCall_of_ck ht, pendingCall_of_ck e]; exact q⟩
+
+/-- Never more replies than calls: whatever the owners of services, other connections and `c` itself do — replies from
+connections that do not own the service, second replies, replies after an abort, aborts of unknown calls, destruction
+of services and objects, disconnects — the number of replies with serial `n` that reach `c` is at most the number of
+calls it sent with that serial (plus the one that was pending at the start). -/
+theorem replies_never_exceed_calls (es : List Event) (b : Broker) (w : Work) (b' : Broker) (w' : Work) (outs : List (List Out))
+    (hr : run b w es = .ok (b', w', outs)) (c n : Nat) (hn : ∀ v, Event.newConn c v ∉ es) (hl : Live b' c) :
+    callReplies c n outs + pendingCall b' c n ≤ pendingCall b c n + callReqs c n es := by
+  have := (call_replies_balance es b w b' w' outs hr c n hn hl).2
+  have := taken_le c n es b w
+  omega
+
+/-- **Exactly one reply per call.** If `c` keeps to the protocol for serial `n` (it sends a call with serial `n` only
+while no earlier call with that serial is pending; `wellBehaved`), then replies + the pending call = calls: every call
+`(c, n)` but possibly the last has been answered exactly once, the last one is answered or still pending, and nothing
+else with that serial was delivered. Serial reuse after a reply or an abort is covered: the statement counts. -/
+theorem well_behaved_caller_exactly_once (es : List Event) (b : Broker) (w : Work) (b' : Broker) (w' : Work)
+    (outs : List (List Out)) (hr : run b w es = .ok (b', w', outs)) (c n : Nat) (hn : ∀ v, Event.newConn c v ∉ es)
+    (hl : Live b' c) (hwb : wellBehaved c n b w es = true) :
+    callReplies c n outs + pendingCall b' c n = pendingCall b c n + callReqs c n es := by
+  obtain ⟨t', ht⟩ := (live_iff_ck (w := w')).1 hl
+  have h1 := (call_replies_balance es b w b' w' outs hr c n hn hl).2
+  have h2 := taken_eq_callReqs (n := n) es b w b' w' outs hr hn hwb t' ht
+  omega
+
+/-- a connection starts with no pending call: for a history that begins with the arrival of `c` -/
+theorem fresh_connection_balance (v : Nat) (es : List Event) (b : Broker) (w : Work) (b' : Broker) (w' : Work) (outs : List (List Out))
+    (hr : run b w (.newConn c v :: es) = .ok (b', w', outs)) (n : Nat) (hn : ∀ v, Event.newConn c v ∉ es) (hl : Live b' c) :
+    callReplies c n outs + pendingCall b' c n = taken c n b w (.newConn c v :: es) ∧
+    taken c n b w (.newConn c v :: es) ≤ callReqs c n es := by
+  simp only [run] at hr
+  split at hr
+  · simp at hr
+  · rename_i b1 w1 out hstep
+    split at hr
+    · simp at hr
+    · rename_i b2 w2 outs' hrun
+      simp only [Except.ok.injEq, Prod.mk.injEq] at hr
+      obtain ⟨rfl, rfl, rfl⟩ := hr
+      obtain ⟨hl1, q⟩ := call_replies_balance es b1 w1 _ _ _ hrun c n hn hl
+      obtain ⟨t1, e1⟩ := (live_iff_ck (w := w1)).1 hl1
+      -- the turn that adds `c`
+      have hfirst : reps c n out + pendingCall b1 c n = 0 := by
+        unfold step at hstep
+        split at hstep
+        · simp at hstep
+        · rename_i s1 h1
+          split at hstep
+          · simp at hstep
+          · rename_i s2 h2
+            simp only [Except.ok.injEq, Prod.mk.injEq] at hstep
+            obtain ⟨rfl, rfl, rfl⟩ := hstep
+            simp only [handleEvent] at h1
+            split at h1
+            · simp at h1
+            · simp only [Except.ok.injEq] at h1; subst h1
+              obtain ⟨t0, e0, q0⟩ := processLoop_bal (c := c) (n := n) _ _ _ h2 t1 e1
+              simp only [ck_stat, ck_setConn, ↓reduceIte, Option.some.injEq, Prod.mk.injEq] at e0
+              rw [pendingCall_of_ck e1]
+              rw [← e0.1] at q0
+              simpa [pendC, AL.find?] using q0
+      have ht : taken c n b w (.newConn c v :: es) = taken c n b1 w1 es := by simp [taken, takes, hstep]
+      refine ⟨?_, ht ▸ taken_le c n es b1 w1⟩
+      simp only [callReplies, List.flatten_cons, reps_append] at q ⊢
+      omega
+
+
+/-! non-vacuity: connection 1 calls with serial 9, aborts, calls again with serial 9 while the owner (1.20, so the abort is
+forwarded) still holds the first call; the owner then answers the first call (dropped) and the second (delivered) -/
+def reuseHist : List Event :=
+  [.newConn 0 20, .newConn 1 20, .msg 0 (.createObject 1 5), .msg 0 (.createService 2 0 6 1),
+   .msg 1 (.callFunction 9 1 0 [3, 7]), .msg 1 (.abortFunctionCall 9), .msg 1 (.callFunction 9 1 0 [3, 8]),
+   .msg 0 (.callFunctionReply 0 (.ok [3, 1])), .msg 0 (.callFunctionReply 1 (.ok [3, 2]))]
+
+example : (match run {} {} reuseHist with
+    | .ok (b, _, outs) => (callReplies 1 9 outs, pendingCall b 1 9, callReqs 1 9 reuseHist, taken 1 9 {} {} reuseHist,
+        (outs.flatten.filter (isRep 1 9)).map (·.msg))
+    | .error _ => (99, 99, 99, 99, [])) =
+    (2, 0, 2, 2, [.callFunctionReply 9 .aborted, .callFunctionReply 9 (.ok [3, 2])]) := by decide
+
+example : wellBehaved 1 9 {} {} reuseHist = true := by decide
+
+/-! ### every reachable state: the tables agree, the owner's reply reaches the caller -/
+
+
+/-- **The caller's table and the broker's table agree, every reachable state.** An entry `n ↦ bs` in the table of
+connection `c` is the pending call `bs` of `(c, n)`, not aborted … -/
+theorem pending_entry_is_live_call {b : Broker} {w : Work} (h : Reachable b w) {c : ConnId} {conn : Conn} {n bs : Nat} {callee : ConnId}
+    (hc : AL.find? c b.conns = some conn) (he : AL.find? n conn.calls = some (bs, callee)) :
+    ∃ call, b.calls.get? bs = some call ∧ call.callerSerial = n ∧ call.callerConn = c ∧ call.aborted = false := by
+  have hi := h.idle
+  have hk : ck ⟨b, w, []⟩ c = some (conn.calls, conn.alive) := ck_of_find hc
+  rcases hi.x.a c _ _ n bs callee hk he with h1 | ⟨_, r, hr⟩
+  · exact h1
+  · rw [hi.r] at hr; simp at hr
+
+/-- … and a call that is not aborted is in the table of its caller, which is still there, under the caller's serial. -/
+theorem live_call_is_pending_at_its_caller {b : Broker} {w : Work} (h : Reachable b w) {bs : Nat} {call : Call}
+    (hg : b.calls.get? bs = some call) (hna : call.aborted = false) :
+    ∃ conn callee, AL.find? call.callerConn b.conns = some conn ∧ AL.find? call.callerSerial conn.calls = some (bs, callee) := by
+  have hi := h.idle
+  rcases hi.x.b bs call hg hna with ⟨t, al, callee, hk, hf⟩ | ⟨_, y, hy⟩ | ⟨_, _, _, h3, _⟩
+  · unfold ck at hk
+    split at hk
+    · rename_i conn hconn
+      simp at hk
+      exact ⟨conn, callee, hconn, by rw [hk.1]; exact hf⟩
+    · simp at hk
+  · rw [hi.a] at hy; simp at hy
+  · simp at h3
+
+/-- `reply_owner_forwarded` with everything the turn needs -/
+theorem reply_owner_forwarded_full {s : St} {id serial r} {call : Call} {o : Obj} {c caller : Conn} {sv : Svc} {x}
+    (hc : AL.find? id s.b.conns = some c) (hcall : s.b.calls.get? serial = some call)
+    (ho : AL.find? call.calleeObj s.b.objs = some o) (hown : o.conn = id)
+    (hsv : AL.find? (call.calleeObj, call.calleeSvc) s.b.svcs = some sv)
+    (hna : call.aborted = false)
+    (hcaller : AL.find? call.callerConn s.b.conns = some caller) (halive : caller.alive = true)
+    (hreg : AL.find? call.callerSerial caller.calls = some x) :
+    ∃ s', callFunctionReply s id serial r = .ok (s', true) ∧
+      s'.b.calls.get? serial = none ∧
+      s'.out = s.out ++ [⟨call.callerConn, .callFunctionReply call.callerSerial r, some c.version⟩] ∧
+      s'.w = s.w ∧
+      AL.find? call.callerConn s'.b.conns = some { caller with calls := AL.erase call.callerSerial caller.calls } := by
+  unfold callFunctionReply
+  simp only [St.conn?_def, hc, hcall, ho, hown, ne_eq, not_true_eq_false, ↓reduceIte, St.setCalls_b_svcs, hsv,
+    hna, Bool.false_eq_true, St.setSvcs_b_conns, St.setCalls_b_conns, hcaller, hreg, Option.isNone_some, okH]
+  have hcc : AL.find? call.callerConn (((s.setCalls (s.b.calls.remove serial)).setSvcs
+      (AL.insert (call.calleeObj, call.calleeSvc) { sv with calls := sremove serial sv.calls } s.b.svcs)).setConn call.callerConn
+        { caller with calls := AL.erase call.callerSerial caller.calls }).b.conns =
+      some { caller with calls := AL.erase call.callerSerial caller.calls } := by simp
+  have hsd := send_alive (m := Rsp.callFunctionReply call.callerSerial r) (v := some c.version) hcc halive
+  refine ⟨_, rfl, ?_, ?_, ?_, ?_⟩
+  · unfold St.sendOrRemove
+    simp only [hsd.2, ↓reduceIte]
+    simp [SerialMap.get?, SerialMap.remove]
+  · unfold St.sendOrRemove
+    simp only [hsd.2, ↓reduceIte, hsd.1]
+    simp
+  · unfold St.sendOrRemove
+    simp only [hsd.2, ↓reduceIte]
+    simp [St.send, St.setConn, St.setSvcs, St.setCalls, St.setConns, St.stat, St.setOut]
+    split <;> (try split) <;> rfl
+  · simp
+
+theorem loopFuel_pos (s : St) : ∃ k, loopFuel s = k + 1 := by
+  have : 0 < loopFuel s := by unfold loopFuel; exact Nat.lt_of_lt_of_le (by decide : 0 < 1000) (Nat.le_add_right _ _)
+  exact ⟨loopFuel s - 1, by omega⟩
+
+/-- **The owner's reply reaches the caller, unchanged.** In a reachable state let connection `c` (task running) have
+the pending call `n ↦ bs`. If the connection that owns the called object sends `CallFunctionReply(bs, r)`, the turn
+of the broker puts exactly one message into a queue: `CallFunctionReply(n, r)` for `c` — the caller's serial, the
+owner's result — and the call is gone from both tables. -/
+theorem owner_reply_delivered {b b' : Broker} {w w' : Work} (h : Reachable b w) {c : ConnId} {conn : Conn} {n bs : Nat} {callee : ConnId}
+    (hc : AL.find? c b.conns = some conn) (hal : conn.alive = true) (he : AL.find? n conn.calls = some (bs, callee))
+    {id : ConnId} {sender : Conn} {r : CallResult} {call : Call} {obj : Obj} {out : List Out}
+    (hid : AL.find? id b.conns = some sender) (hg : b.calls.get? bs = some call)
+    (ho : AL.find? call.calleeObj b.objs = some obj) (hown : obj.conn = id)
+    (hs : step b w (.msg id (.callFunctionReply bs r)) = .ok (b', w', out)) :
+    out = [⟨c, .callFunctionReply n r, some sender.version⟩] ∧ pendingCall b' c n = 0 ∧ b'.calls.get? bs = none := by
+  obtain ⟨call', hg', h1, h2, h3⟩ := pending_entry_is_live_call h hc he
+  rw [hg] at hg'; simp at hg'; subst hg'
+  have hi := h.idle
+  unfold step at hs
+  simp only [handleEvent, handleMessage] at hs
+  cases hsv : AL.find? (call.calleeObj, call.calleeSvc) b.svcs with
+  | none =>
+    simp [callFunctionReply, St.conn?, hid, hg, ho, hown, hsv] at hs
+  | some svc =>
+    obtain ⟨s1, hcf, hget, hout, hw, hconn'⟩ := reply_owner_forwarded_full (s := ⟨b, w, []⟩) (r := r) hid hg ho hown hsv h3
+      (by rw [h2]; exact hc) hal (by rw [h1]; exact he)
+    simp only [hcf, ↓reduceIte] at hs
+    generalize hS : (s1.stat fun st => { st with messagesReceived := st.messagesReceived + 1 }) = S at hs
+    have hSw : S.w.idle := by rw [← hS]; simp only [St.stat]; rw [hw]; exact hi.i
+    obtain ⟨k, hk⟩ := loopFuel_pos S
+    rw [hk, processLoop_of_idle hSw] at hs
+    simp only [Except.ok.injEq, Prod.mk.injEq] at hs
+    obtain ⟨rfl, rfl, rfl⟩ := hs
+    subst hS
+    refine ⟨by simp [hout, h1, h2], ?_, by simpa using hget⟩
+    rw [h2] at hconn'
+    simp [pendingCall, hconn', h1, AL.find?_erase]
+
+/-- **A reply from a connection that does not own the called object is not delivered**: nothing is put into any queue
+and the call stays pending. -/
+theorem foreign_reply_not_delivered {b b' : Broker} {w w' : Work} (h : Reachable b w) {bs : Nat}
+    {id : ConnId} {sender : Conn} {r : CallResult} {call : Call} {obj : Obj} {out : List Out}
+    (hid : AL.find? id b.conns = some sender) (hg : b.calls.get? bs = some call)
+    (ho : AL.find? call.calleeObj b.objs = some obj) (hown : obj.conn ≠ id)
+    (hs : step b w (.msg id (.callFunctionReply bs r)) = .ok (b', w', out)) :
+    out = [] ∧ b'.calls.get? bs = some call ∧ b'.conns = b.conns := by
+  have hi := h.idle
+  unfold step at hs
+  simp only [handleEvent, handleMessage] at hs
+  rw [reply_foreign_ignored (s := ⟨b, w, []⟩) hid hg ho hown] at hs
+  simp only [↓reduceIte] at hs
+  generalize hS : (({ b := b, w := w, out := [] } : St).stat fun st => { st with messagesReceived := st.messagesReceived + 1 }) = S at hs
+  have hSw : S.w.idle := by rw [← hS]; exact hi.i
+  obtain ⟨k, hk⟩ := loopFuel_pos S
+  rw [hk, processLoop_of_idle hSw] at hs
+  simp only [Except.ok.injEq, Prod.mk.injEq] at hs
+  obtain ⟨rfl, rfl, rfl⟩ := hs
+  subst hS
+  exact ⟨rfl, by simpa using hg, rfl⟩
+
 
 end Aldrin.Broker
